@@ -1,4 +1,4 @@
-(* Model of fakesnow/variables.py (Variables._set/_unset/inline_variables, after fix 054ef98)
+(* Model of fakesnow/variables.py (Variables._set/_unset/inline_variables/_split_protected, after fixes 054ef98 and 83dbaa3)
    and of the per-connection variable store (conn.py:52, cursor.py:138,448).
    Texts are ASCII; \w is [A-Za-z0-9_] (Unicode \w and case folding are outside the model). *)
 From FS Require Import Sexp.
@@ -52,12 +52,90 @@ Fixpoint remaining (prev_dollar : bool) (s : str) : option str :=
       else remaining (c =? dollar) r
   end.
 
-Definition inline_variables (vs : vars) (sql : str) : str + str :=   (* inr = undefined-variable error, upper-cased *)
+(* Variables._inline: one piece of SQL text proper *)
+Definition inline_text (vs : vars) (sql : str) : str + str :=   (* inr = undefined-variable error, upper-cased *)
   let s := inline_all vs sql in
   match remaining false s with
   | Some m => inr (upper m)
   | None => inl s
   end.
+
+(* ---- variables.py:_split_protected (fix 83dbaa3): the text is cut into pieces; complete 'string literals' (with ''
+   and backslash escapes), "quoted identifiers" (with ""), $$dollar-quoted strings$$, -- comments and /* comments */ are protected;
+   an unterminated one is ordinary text ---- *)
+Definition c_sq : Z := 39.  Definition c_dq : Z := 34.  Definition c_bs : Z := 92.  Definition c_nl : Z := 10.
+Definition c_dash : Z := 45.  Definition c_slash : Z := 47.  Definition c_star : Z := 42.
+
+(* after the opening quote q: the rest of the literal (with its closing quote) and what follows it *)
+Fixpoint scan_quoted (q : Z) (bs : bool) (s acc : str) : option (str * str) :=
+  match s with
+  | [] => None
+  | x :: r =>
+      if bs && (x =? c_bs) then match r with y :: r' => scan_quoted q bs r' (acc ++ [x; y]) | [] => None end
+      else if negb (x =? q) then scan_quoted q bs r (acc ++ [x])
+      else match r with
+           | y :: r' => if y =? q then scan_quoted q bs r' (acc ++ [x; y]) else Some (acc ++ [x], r)
+           | [] => Some (acc ++ [x], [])
+           end
+  end.
+(* str.find of the two-character terminator a b *)
+Fixpoint find2 (a b : Z) (s acc : str) : option (str * str) :=
+  match s with
+  | [] => None
+  | x :: r => match r with
+              | y :: r' => if (x =? a) && (y =? b) then Some (acc ++ [x; y], r') else find2 a b r (acc ++ [x])
+              | [] => None
+              end
+  end.
+Fixpoint to_eol (s acc : str) : str * str :=
+  match s with
+  | [] => (acc, [])
+  | x :: r => if x =? c_nl then (acc, s) else to_eol r (acc ++ [x])
+  end.
+
+(* a complete protected piece starting at the head of s, and the text after it *)
+Definition protect_here (s : str) : option (str * str) :=
+  match s with
+  | [] => None
+  | c :: r =>
+      if c =? c_sq then scan_quoted c_sq true r [c]
+      else if c =? c_dq then scan_quoted c_dq false r [c]
+      else match r with
+           | d :: r' =>
+               if (c =? dollar) && (d =? dollar) then find2 dollar dollar r' [c; d]
+               else if (c =? c_dash) && (d =? c_dash) then Some (to_eol r' [c; d])
+               else if (c =? c_slash) && (d =? c_star) then find2 c_star c_slash r' [c; d]
+               else None
+           | [] => None
+           end
+  end.
+
+Fixpoint split_fuel (fuel : nat) (s acc : str) : list (bool * str) :=
+  match fuel with
+  | O => [(false, acc ++ s)]
+  | S f =>
+      match s with
+      | [] => [(false, acc)]
+      | c :: r =>
+          match protect_here s with
+          | Some (p, rest) => (false, acc) :: (true, p) :: split_fuel f rest []
+          | None => split_fuel f r (acc ++ [c])
+          end
+      end
+  end.
+Definition split_protected (s : str) : list (bool * str) := split_fuel (S (length s)) s [].
+
+(* "".join(text if protected else self._inline(text) ...): pieces in order, the first undefined variable raises *)
+Fixpoint inline_pieces (vs : vars) (ps : list (bool * str)) : str + str :=
+  match ps with
+  | [] => inl []
+  | (true, t) :: r => match inline_pieces vs r with inl o => inl (t ++ o) | inr e => inr e end
+  | (false, t) :: r => match inline_text vs t with
+                       | inr e => inr e
+                       | inl t' => match inline_pieces vs r with inl o => inl (t' ++ o) | inr e => inr e end
+                       end
+  end.
+Definition inline_variables (vs : vars) (sql : str) : str + str := inline_pieces vs (split_protected sql).
 
 (* dict semantics *)
 Fixpoint vset (vs : vars) (n v : str) : vars :=
